@@ -786,73 +786,55 @@ def rule_bool_result_vs_fail(ctx):
     return n
 
 
-class _DetachFail(PathAnalysis):
-    """user = frozenset over {'A': file_rec->attach decremented, 'R': the access record released}"""
-
-    def __init__(self, prog):
-        super().__init__(prog)
-        self.exits = []
-
-    def init_user(self, func):
-        return frozenset()
-
-    def on_stmt(self, func, bid, idx, stmt, env, user):
-        from .facts import walk, mem_field
-        u = set(user)
-        for x in walk(stmt["e"]):
-            if x[0] == "incdec" and x[1] == "--" and (mem_field(x[3]) or (0, 0)) == ("filerec_t", "attach"):
-                u.add("A")
-            elif x[0] == "asg" and x[1] == "-=" and (mem_field(x[2]) or (0, 0)) == ("filerec_t", "attach"):
-                u.add("A")
-            elif x[0] == "call" and x[1] == "HIrelease_accrec_node":
-                u.add("R")
-        return frozenset(u)
-
-    def on_assume(self, func, bid, cond, pol, env, user):
-        # BADFREC(file_rec) held: there is no file record to detach from
-        from .facts import walk, mem_field, is_int
-        c = strip(cond)
-        bad = False
-        if kind(c) == "bin" and c[1] == "==" and pol:
-            if (kind(strip(c[2])) == "var" and "file_rec" in strip(c[2])[1] and is_int(c[3], 0)) or ((mem_field(c[2]) or (0, 0)) == ("filerec_t", "refcount") and is_int(c[3], 0)):
-                bad = True
-        if kind(c) == "bin" and c[1] == "!=" and not pol:
-            if (kind(strip(c[2])) == "var" and "file_rec" in strip(c[2])[1] and is_int(c[3], 0)) or ((mem_field(c[2]) or (0, 0)) == ("filerec_t", "refcount") and is_int(c[3], 0)):
-                bad = True
-        if kind(c) == "un" and c[1] == "!" and pol and ((kind(strip(c[2])) == "var" and "file_rec" in strip(c[2])[1]) or (mem_field(c[2]) or (0, 0)) == ("filerec_t", "refcount")):
-            bad = True
-        if bad:
-            return frozenset(set(user) | {"B"})
-        return user
-
-    def on_exit(self, func, bid, retval, env, user):
-        self.exits.append((classify_ret(retval, self.fails), user))
-
-
-def rule_failed_release_detaches(ctx):
-    """DETACHFAIL (C16, C13): Hendaccess takes the access id out of the atom table before it calls the element's end-access routine, and
-    that routine releases the access record on every exit — also when flushing or closing failed.  The id is therefore gone in any
-    case, and the file must not go on counting it: on every exit of an end-access routine that keeps the attach count, a released
-    record goes together with `file_rec->attach--`.  Left attached, Hclose fails with DFE_OPENAID for the rest of the process
-    and nothing written in the session can be flushed — one reported I/O failure turns into the silent loss of everything else."""
+def rule_bit_io_count_checked(ctx):
+    """BITCOUNT (C16, C05): Hbitread and Hbitwrite report how many bits they transferred.  A storage failure underneath does not make
+    them return FAIL (that is reserved for bad arguments): the count comes back short.  Every call in the coders must therefore be
+    compared with the number of bits it asked for; a dropped result, or a comparison with FAIL only, lets a read or write fault
+    pass as success — wrong data is delivered, or a damaged element is stored, with every API call returning success."""
+    from .facts import kind, strip, walk, render, is_int, int_val
+    from .codec import ast_walk
     prog = ctx.prog
     n = 0
+    occ = {}
     for f in prog.lib_funcs():
-        if not f.rel.startswith("hdf/src/") or not f.name.endswith("Pendaccess"):
+        if not f.rel.startswith("hdf/src/c") or not f.raw.get("ast"):
             continue
-        names = {c[1] for _b, _i, _s, c in f.calls()}
-        has_dec = any((x[0] == "incdec" and x[1] == "--" and (mem_field(x[3]) or (0, 0)) == ("filerec_t", "attach")) for _b, _i, _s, x in f.nodes(True))
-        if "HIrelease_accrec_node" not in names or not has_dec:
-            continue
-        a = _DetachFail(prog)
-        a.fails = fail_values(f, prog)
-        a.run(f)
-        n += 1
-        key = "DETACHFAIL:%s" % f.name
-        bad = [cls for cls, u in a.exits if "R" in u and "A" not in u and "B" not in u]
-        if bad:
-            ctx.violated("DETACHFAIL", key, f.where(), "%s can return (%s) with the access record released but `file_rec->attach` not decremented: the file stays 'attached' by an id that no longer exists and can never be closed" % (f.name, "on its failure exit" if "fail" in bad else "successfully"))
-        else:
-            ctx.holds("DETACHFAIL", key, f.where(), "every exit that releases the access record has detached from the file", nontrivial=True)
-    ctx.floor("DETACHFAIL", 5, n, "(end-access routines that keep the attach count)")
+        sites = []
+
+        def vis(nd, st):
+            exprs = [nd[1]] if nd[0] in ("s", "if", "while") and nd[1] is not None else []
+            for e in exprs:
+                top = strip(e)
+                for x in walk(e, True):
+                    if x[0] == "call" and x[1] in ("Hbitread", "Hbitwrite") and len(x[3]) > 1:
+                        # find the comparison the call is an operand of
+                        verdict = "dropped"
+                        for y in walk(e, True):
+                            if y[0] == "bin" and y[1] in ("!=", "==", "<") and any(z is x for z in (strip(y[2]), strip(y[3]))):
+                                other = strip(y[3]) if strip(y[2]) is x else strip(y[2])
+                                if is_int(other) and int_val(other) == -1:
+                                    verdict = "FAIL only"
+                                elif render(other) == render(strip(x[3][1])) or (is_int(other) and is_int(strip(x[3][1])) and int_val(other) == int_val(strip(x[3][1]))):
+                                    verdict = "count"
+                                else:
+                                    verdict = "other:" + render(other)[:30]
+                        sites.append((x, nd, verdict))
+            return True
+
+        ast_walk(f.raw["ast"], vis)
+        for x, nd, verdict in sites:
+            n += 1
+            key = "BITCOUNT:%s:%s" % (f.name, x[1])
+            occ[key] = occ.get(key, 0) + 1
+            if occ[key] > 1:
+                key += "#%d" % occ[key]
+            line = x[5] if len(x) > 5 and isinstance(x[5], int) else f.line
+            if verdict == "count":
+                ctx.holds("BITCOUNT", key, f.where(line), "the result is compared with the `%s` bits asked for" % render(strip(x[3][1]))[:40], nontrivial=True)
+            elif verdict.startswith("other:"):
+                ctx.excepted("BITCOUNT", key, f.where(line), "compared with `%s`: not one of the recognised forms" % verdict[6:])
+            else:
+                ctx.violated("BITCOUNT", key, f.where(line), "the result of %s() is %s: a storage failure underneath returns a short count, which this call site takes for success" %
+                             (x[1], "dropped" if verdict == "dropped" else "compared with FAIL only"))
+    ctx.floor("BITCOUNT", 4, n, "(bit I/O calls in the coders)")
     return n
